@@ -12,25 +12,26 @@ import (
 )
 
 type Env struct {
-	g       *Gen
-	st      *State
-	old     *State
-	vars    map[string]*Value
-	fr      *frame
-	pkgPath string
-	inBody  bool // identifiers may denote the current value of local cells
-	bound   map[string]*Value
-	failed  bool
-	fuelFn   string          // while translating this function's axioms: applications other than the trigger use the twin symbol
-	fuelTrig map[string]bool
+	g            *Gen
+	st           *State
+	old          *State
+	vars         map[string]*Value
+	fr           *frame
+	pkgPath      string
+	inBody       bool // identifiers may denote the current value of local cells
+	bound        map[string]*Value
+	failed       bool
+	quietErrs    *int   // non-nil: evaluation errors are counted here instead of being reported (clauses that may not be usable in this context)
+	fuelFn       string // while translating this function's axioms: applications other than the trigger use the twin symbol
+	fuelTrig     map[string]bool
 	outerBinders string // placeholder for binders to be merged into the outermost forall
 	outerUsed    bool
 }
 
 var mathInt = types.Typ[types.UntypedInt]
 
-func mathVal(t string) *Value  { return &Value{T: mathInt, L: []string{t}, Math: true} }
-func boolVal(t string) *Value  { return &Value{T: types.Typ[types.Bool], L: []string{t}} }
+func mathVal(t string) *Value { return &Value{T: mathInt, L: []string{t}, Math: true} }
+func boolVal(t string) *Value { return &Value{T: types.Typ[types.Bool], L: []string{t}} }
 func (e *Env) sub() *Env {
 	n := *e
 	n.outerBinders = ""
@@ -40,6 +41,10 @@ func (e *Env) sub() *Env {
 
 func (e *Env) fail(format string, a ...interface{}) *Value {
 	e.failed = true
+	if e.quietErrs != nil {
+		*e.quietErrs++
+		return boolVal(e.g.fresh("specerr", sBool))
+	}
 	e.g.errorf("spec: "+format, a...)
 	return boolVal(e.g.fresh("specerr", sBool))
 }
